@@ -224,15 +224,17 @@ def c03(res, scenario) -> list[Violation]:
         return out
     if res.post.get("alive"):
         out.append(Violation("c03:thread-alive", f"threads still alive: {res.post['alive']}", case))
-    # teardown exactly once per interaction component
+    # teardown exactly once per interaction component if its thread was started, never otherwise
+    want = 1 if any(e[1] == "spawn" and e[2] == "inference" for e in res.events) else 0
     for comp in ("agent", "env"):
         n = sum(1 for e in res.events if e[1] == "cb_begin" and e[2] == f"{comp}.teardown")
-        if n != 1:
+        if n != want:
             # agent.teardown raising prevents env.teardown from being called: still "teardown ran"
             raised_td = any(e[1] == "cb_raise" and e[2].endswith(".teardown") for e in res.events)
             if not (raised_td and n == 0):
                 out.append(Violation("c03:teardown-count",
-                                     f"{comp}.teardown ran {n} times (expected exactly once)", case))
+                                     f"{comp}.teardown ran {n} times (expected exactly "
+                                     f"{'once' if want else 'never: the inference thread was not started'})", case))
     if ctl_fault and not bg_fault:
         # final save of components that raise on save also raises: accept any raise
         if not res.outcome.startswith("raised"):
@@ -287,8 +289,11 @@ def c04(res, scenario) -> list[Violation]:
     # snapshot content
     for sv in res.saves:
         idx = sv["event_index"]
-        final = not any(e[0] in BG and e[1] != "exit" for e in ev[idx:]) and \
-            any(e[0] == "control" and e[1] == "join" for e in ev[:idx])
+        # the final save is launch()'s own call of the state store: outside ControlThread.save_state
+        # (a runtime save always runs inside one) and after the last action of a background thread
+        open_calls = sum((e[1] == "save_state_call") - (e[1] in ("save_state_ret", "save_state_raise"))
+                         for e in ev[:idx] if e[0] == "control")
+        final = not any(e[0] in BG and e[1] != "exit" for e in ev[idx:]) and open_calls == 0
         files = sv["files"]
         tag = "final" if final else "runtime"
         loaded = next((e[3] for e in ev[:idx] if e[1] == "loaded_steps" and e[2] == "agent"), 0)
@@ -451,8 +456,10 @@ def c09(res, scenario) -> list[Violation]:
             executing[comp] = None
             if name not in ("save", "load") and th in thread_exec:
                 thread_exec[th] = max(0, thread_exec[th] - 1)
-    # teardown exactly once for started interaction components of complete runs
-    if not res.outcome.startswith("aborted"):
+    # teardown exactly once for the interaction components of complete runs - if the inference thread was
+    # started at all (an interrupt may cut the start-up short: nothing to tear down then)
+    inference_started = any(e[1] == "spawn" and e[2] == "inference" for e in res.events)
+    if not res.outcome.startswith("aborted") and inference_started:
         for comp in ("agent", "env"):
             if state.get(comp, "new") not in ("down",):
                 raised_td = any(e[1] == "cb_raise" and e[2].endswith(".teardown") for e in res.events)
